@@ -73,7 +73,20 @@ async def episode(loop: vloop.VirtualLoop, ctx, pid: str, trial: int) -> None:
     if rng.random() < 0.4:  # a controller's sync cycle is being tracked (sync avoidance is live)
         air.inject(f" I --- {CTL} --:------ {CTL} 1F09 003 FF{rng.choice((5, 50, 1855)):04X}", faultable=False)
     await asyncio.sleep(0.3)
-    meta = {"seed": ctx.seed, "trial": trial, "stick_never_echoes_7FFF": script.mute_7fff, "disable_qos": qos_mode, "p_echo_lost": script.p_echo, "p_reply_lost": script.p_rply, "delay": script.delay}
+    # writes held back by the transport when their caller gives up: (a) the duty-cycle limiter with an exhausted
+    # allowance, (b) a sync cycle that is imminent at the moment of the call
+    import ramses_tx.transport as tr_mod
+
+    limiter_on = rng.random() < 0.2
+    holdback = not limiter_on and rng.random() < 0.25
+    if limiter_on:
+        tr_mod._DBG_DISABLE_DUTY_CYCLE_LIMIT = False
+        for _ in range(30):  # about one bucket (23 040 bits) of long frames
+            await gwy._transport.write_frame(" I --- 18:000730 63:262142 --:------ 7FFF 048 " + "00" * 48)
+        ctx.count("int.episodes_with_exhausted_duty_cycle")
+    if holdback:
+        ctx.count("int.episodes_with_sync_holdback")
+    meta = {"seed": ctx.seed, "trial": trial, "duty_cycle_exhausted": limiter_on, "sync_holdback": holdback, "stick_never_echoes_7FFF": script.mute_7fff, "disable_qos": qos_mode, "p_echo_lost": script.p_echo, "p_reply_lost": script.p_rply, "delay": script.delay}
     history: list[dict[str, Any]] = []
     n_unhandled = len(loop.unhandled)
 
@@ -83,13 +96,18 @@ async def episode(loop: vloop.VirtualLoop, ctx, pid: str, trial: int) -> None:
         if code == "W2309":
             cmd = Command.from_attrs(" W", CTL, "2309", f"{idx}07D0")
         elif code == "faked30C9":  # sent in a faked sensor's name: an impersonation notice goes out first
-            cmd = Command.put_sensor_temp("03:123456", 15.0 + n / 4)
+            cmd = Command.put_sensor_temp(f"03:1234{n:02d}", 15.0 + n / 4)  # (one faked sensor per caller: headers stay distinct)
         else:
             cmd = Command.from_attrs("RQ", CTL, code, idx)
         wfr = rng.choice((None, True, False))
         timeout = rng.choice((0.5, 1.5, 3.5, 20, 25))
         retries = rng.choice((0, 1, 3))
-        await asyncio.sleep(rng.choice((0.0, 0.0, 0.01, 0.3, 2.0)))
+        if holdback and n == 0:
+            timeout = rng.choice((0.03, 0.05, 0.15))  # gives up while its frame waits out the sync cycle
+            air.inject(f" I --- {CTL} --:------ {CTL} 1F09 003 FF0001", faultable=False)  # a sync cycle 0.1 s away
+            await asyncio.sleep(rng.choice((0.001, 0.01, 0.03)))
+        else:
+            await asyncio.sleep(rng.choice((0.0, 0.0, 0.01, 0.3, 2.0)))
         rec: dict[str, Any] = {"n": n, "cmd": str(cmd), "wait_for_reply": wfr, "timeout": timeout, "max_retries": retries, "call_vt": loop.time(), "impersonated": code == "faked30C9"}
         history.append(rec)
         ctx.count("int.calls")
@@ -151,7 +169,7 @@ async def episode(loop: vloop.VirtualLoop, ctx, pid: str, trial: int) -> None:
             limit = 1 + min(rec["max_retries"], 3)
             if len(mine) > limit:
                 ctx.violate("C08|integration|too-many-transmissions", "at the serial port a command was written more than 1 + min(max_retries, 3) times", {"call": rec, "writes_vt": mine, "limit": limit, "episode": meta})
-            if "exc" in rec and "Exceeded maximum retries" in rec.get("text", "") and len(mine) != limit and not meta.get("serial_error") and "cmd_=7FFF" not in rec.get("text", ""):  # (not: its impersonation notice gave up)
+            if "exc" in rec and "Exceeded maximum retries" in rec.get("text", "") and len(mine) != limit and not meta.get("serial_error") and not meta.get("duty_cycle_exhausted") and "cmd_=7FFF" not in rec.get("text", ""):  # (not: its impersonation notice gave up)
                 ctx.violate("C08|integration|gave-up-early", "a command failed for 'maximum retries' before 1 + min(max_retries, 3) writes reached the serial port", {"call": rec, "writes_vt": mine, "limit": limit, "episode": meta})
             if not rec.get("open") and "return_vt" in rec:
                 late = [vt for vt in mine if vt > rec["return_vt"] + 1e-9]
@@ -181,6 +199,7 @@ async def episode(loop: vloop.VirtualLoop, ctx, pid: str, trial: int) -> None:
     ctx.count("int.episodes")
     outcomes = "+".join(sorted({"ok" if "result" in r else r.get("exc", "open") for r in history}))
     ctx.seen(f"int|callers={len(history)}|echo={script.p_echo}|rply={script.p_rply}|{'serr' if meta.get('serial_error') else ''}|{outcomes}")
+    tr_mod._DBG_DISABLE_DUTY_CYCLE_LIMIT = True
     await harness.stop_gateway(gwy)
     air.close()
 
@@ -373,7 +392,7 @@ def run_integration(ctx, pid: str) -> None:
         harness.reset_transport_globals()
 
         async def go(loop, trial=trial):
-            with clocks_patched():
+            with clocks_patched(perf_counter=True):
                 await episode(loop, ctx, pid, trial)
 
         _run_watched(ctx, pid, go, "integration")
